@@ -55,6 +55,61 @@ def mutate(unit, mu: str) -> dict[str, str]:
     raise AssertionError(mu)
 
 
+HEADER = "from enum import Enum\nfrom typing import Generic, TypeVar\n\nT = TypeVar(\"T\")\n"
+
+# declaration kinds for the adjacency part: each leaves a different piece of per-declaration analysis state behind (type
+# variables gathered, current class, docstring cache, inferred results, ...) and each is a possible victim of such state
+MENU: dict[str, str] = {
+    "gen_cls_attr": "class G@(Generic[T]):\n    value: T\n",
+    "gen_cls_method": "class H@(Generic[T]):\n    def get@(self, d: T) -> T:\n        return d\n",
+    "gen_fun": "def gf@(x: T) -> T:\n    return x\n",
+    "fun_plain": "def f@(x: int) -> int:\n    return x\n",
+    "fun_noparam": "def n@() -> None:\n    pass\n",
+    "fun_tuple": "def t@(x: int) -> tuple[int, str]:\n    return x, \"\"\n",
+    "fun_infer": "def i@(x):\n    if x:\n        return 1\n    return \"\"\n",
+    "fun_doc": "def d@(x: int) -> bool:\n    \"\"\"Summary of d@.\n\n    Parameters\n    ----------\n    x : int\n        the x of d@\n\n    Returns\n    -------\n    r : bool\n        the r of d@\n    \"\"\"\n    return True\n",
+    "cls_init": "class C@:\n    def __init__(self, a: int) -> None:\n        self.a = a\n",
+    "cls_method": "class M@:\n    def m@(self, b: str) -> str:\n        return b\n",
+    "cls_attr": "class A@:\n    x@: int = 1\n    y@ = \"s\"\n",
+    "cls_nested": "class N@:\n    class Inner@:\n        z@: int = 1\n",
+    "cls_prop": "class P@:\n    @property\n    def p@(self) -> int:\n        return 1\n",
+    "cls_static": "class S@:\n    @staticmethod\n    def s@(q: int) -> int:\n        return q\n\n    @classmethod\n    def c@(cls, q: int) -> int:\n        return q\n",
+    "cls_internal_base": "class _B@:\n    def pm@(self, w: T) -> T:\n        return w\n\n\nclass D@(_B@):\n    pass\n",
+    "enum": "class E@(Enum):\n    A@ = 1\n    B@ = 2\n",
+    "gvar": "v@: int = 1\n",
+}
+KINDS = list(MENU)
+
+
+def chunk(kind: str, suffix: str) -> str:
+    return MENU[kind].replace("@", suffix)
+
+
+def adjacency_pkg(ender: str | None) -> dict[str, str]:
+    """One observed module per kind (p<jj>b); with an ender, two unrelated modules holding that kind around each (p<jj>a, p<jj>c)."""
+    files = {f"{PKG}/__init__.py": ""}
+    for j, kind in enumerate(KINDS):
+        files[f"{PKG}/p{j:02d}b.py"] = HEADER + "\n\n" + chunk(kind, f"v{j:02d}")
+        if ender is not None:
+            files[f"{PKG}/p{j:02d}a.py"] = HEADER + "\n\n" + chunk(ender, f"ua{j:02d}")
+            files[f"{PKG}/p{j:02d}c.py"] = HEADER + "\n\n" + chunk(ender, f"uc{j:02d}")
+    return files
+
+
+def order_pkg(reverse: bool) -> dict[str, str]:
+    """One module per ordered pair of different kinds: q<ii>_<jj> holds kind i then kind j (or, reversed, j then i)."""
+    files = {f"{PKG}/__init__.py": ""}
+    for i, ki in enumerate(KINDS):
+        for j, kj in enumerate(KINDS):
+            if i == j:
+                continue
+            parts = [chunk(ki, f"x{i:02d}{j:02d}"), chunk(kj, f"y{i:02d}{j:02d}")]
+            if reverse:
+                parts.reverse()
+            files[f"{PKG}/q{i:02d}_{j:02d}.py"] = HEADER + "\n\n" + "\n\n".join(parts)
+    return files
+
+
 def top_level_texts(stub: str) -> tuple[str, list[str]] | None:
     """(header incl. imports, sorted list of top-level declaration texts) of a stub, split on blank lines at depth 0."""
     try:
@@ -101,7 +156,8 @@ def run(rep: Report, tier: str, seed: int) -> None:
             units.append({"kind": "c11", "T": T, "files": files, "root": f"{PKG}/u{T}", "modname": f"a{T}", "label": f"c11:{tname}:{pos}", "ref_names": [ref] if re.match(r"^[A-Za-z_]\w*$", ref) and ref not in ("bytes", "complex", "object", "frozenset", "Exception", "range") else None})
     rep.rule = (
         f"{len(units)} base units (C03 trees and C11 user/target trees) x {len(MUTATIONS)} unrelated additions (fresh names; the unit's own declaration names; same module file name; a package re-exporting equally named declarations by name / alias / star; a package named like a declaration; a class named like the referenced class), "
-        "each as a run pair base vs mutated over the whole packed package (so cross-unit interference is visible too), plus reversal of the top-level declarations of tree modules; distinct = distinct (unit, mutation)"
+        "each as a run pair base vs mutated over the whole packed package (so cross-unit interference is visible too), plus reversal of the top-level declarations of tree modules; "
+        f"Part B: {len(KINDS)} declaration kinds, every (unrelated kind analysed next to an observed kind) pair with the unrelated module on either side, and every ordered pair of kinds inside one module vs the swapped order; distinct = distinct (unit, mutation) resp. (kind, kind, options)"
     )
 
     base_obs: dict[int, Obs] = {}
@@ -194,6 +250,89 @@ def run(rep: Report, tier: str, seed: int) -> None:
 
     stats: dict[str, int] = {}
     run_packed(groups, build_pkg, on_group, stats)
+
+    # ---- Part B: state left behind by the declaration / module analysed just before (adjacency menu) ----
+    from ..explore import run_jobs
+    from ..driver import job_run_files
+
+    styles = [Opts(), Opts(docstyle="numpydoc")] if tier == "quick" else [Opts(docstyle=d) for d in ("plaintext", "numpydoc", "google", "rest")]
+    jobs = []
+    for oi, o in enumerate(styles):
+        jobs.append((("adj", None, oi), job_run_files, (adjacency_pkg(None), PKG, o)))
+        for e in KINDS:
+            jobs.append((("adj", e, oi), job_run_files, (adjacency_pkg(e), PKG, o)))
+        jobs.append((("ord", False, oi), job_run_files, (order_pkg(False), PKG, o)))
+        jobs.append((("ord", True, oi), job_run_files, (order_pkg(True), PKG, o)))
+    got: dict = {}
+    run_jobs(jobs, lambda tag, obs: got.__setitem__(tag, obs))
+    stats["tool_runs"] = stats.get("tool_runs", 0) + len(jobs)
+    realised: set[tuple[str, str]] = set()
+    for oi, o in enumerate(styles):
+        base = got[("adj", None, oi)]
+        for e in KINDS:
+            obs = got[("adj", e, oi)]
+            files = adjacency_pkg(e)
+            if base.outcome != "completed" or obs.outcome != "completed":
+                bad = base if base.outcome != "completed" else obs
+                rep.case(f"adj|{e}|{o.key()}", True)
+                rep.violation("run-completes", f"run:{bad.outcome}:{bad.crash_sig()}|adjacent:{e}", {"ender": e, "exc": bad.exc_type + ": " + bad.exc_msg, "tb": bad.exc_tb[-500:]}, files=files, src_rel=PKG, opts=o, obs=bad)
+                continue
+            # which (unrelated, observed) neighbourhoods did the analysis order of this run realise?
+            order = [m["id"].split("/")[-1] for m in (obs.api() or {}).get("modules", [])]
+            for a, b in zip(order, order[1:], strict=False):
+                if b.endswith("b") and not a.endswith("b") and b[:1] == "p":
+                    realised.add((e, KINDS[int(b[1:3])]))
+            bs, ms = base.stubs(), obs.stubs()
+            for j, kind in enumerate(KINDS):
+                label = f"adj|{e}|{kind}|{o.key()}"
+                rep.case(label, True, sample={"unrelated_kind": e, "observed_kind": kind, "opts": o.key()} if hash(label) % 97 == 0 else None)
+                mine_b = {k: v for k, v in bs.items() if f"/p{j:02d}b/" in "/" + k}
+                mine_m = {k: v for k, v in ms.items() if f"/p{j:02d}b/" in "/" + k}
+                if mine_b == mine_m:
+                    rep.ok("unrelated-addition-leaves-stub-identical")
+                    continue
+                k0 = sorted(k for k in set(mine_b) | set(mine_m) if mine_b.get(k) != mine_m.get(k))[0]
+                f2 = {f"{PKG}/__init__.py": "", **{k: v for k, v in files.items() if f"/p{j:02d}" in k}}
+                rep.violation(
+                    "unrelated-addition-leaves-stub-identical", f"adjacent-unrelated:{e}|observed:{kind}",
+                    {"unrelated_kind": e, "observed_kind": kind, "file": k0, "base": (mine_b.get(k0) or "")[:600], "mutated": (mine_m.get(k0) or "")[:600]},
+                    files=f2, src_rel=PKG, opts=o,
+                )
+        fw, rv = got[("ord", False, oi)], got[("ord", True, oi)]
+        if fw.outcome != "completed" or rv.outcome != "completed":
+            bad = fw if fw.outcome != "completed" else rv
+            rep.case(f"ord|{o.key()}", True)
+            rep.violation("run-completes", f"run:{bad.outcome}:{bad.crash_sig()}|order-menu", {"exc": bad.exc_type + ": " + bad.exc_msg, "tb": bad.exc_tb[-500:]}, files=order_pkg(fw.outcome == "completed"), src_rel=PKG, opts=o, obs=bad)
+            continue
+        fs, rs = fw.stubs(), rv.stubs()
+        for i, ki in enumerate(KINDS):
+            for j, kj in enumerate(KINDS):
+                if i == j:
+                    continue
+                label = f"ord|{ki}|{kj}|{o.key()}"
+                rep.case(label, True, sample={"first": ki, "second": kj, "opts": o.key()} if hash(label) % 197 == 0 else None)
+                mod = f"q{i:02d}_{j:02d}"
+                mine_f = {k: v for k, v in fs.items() if f"/{mod}/" in "/" + k}
+                mine_r = {k: v for k, v in rs.items() if f"/{mod}/" in "/" + k}
+                same = set(mine_f) == set(mine_r)
+                if same:
+                    for k in mine_f:
+                        a, c = top_level_texts(mine_f[k]), top_level_texts(mine_r[k])
+                        if a is not None and c is not None and a != c:
+                            same = False
+                if same:
+                    rep.ok("permutation-only-permutes")
+                    continue
+                k0 = sorted(set(mine_f) | set(mine_r))[0]
+                f2 = {f"{PKG}/__init__.py": "", f"{PKG}/{mod}.py": order_pkg(False)[f"{PKG}/{mod}.py"]}
+                rep.violation(
+                    "permutation-only-permutes", f"permute-menu:{ki}|{kj}",
+                    {"first": ki, "second": kj, "forward": (mine_f.get(k0) or "")[:600], "reversed": (mine_r.get(k0) or "")[:600], "note": "pkg/ holds the forward order; the reversed order swaps the two declarations"},
+                    files=f2, src_rel=PKG, opts=o,
+                )
+    rep.extra["adjacency_kinds"] = len(KINDS)
+    rep.extra["adjacent_unrelated_before_observed_realised"] = len(realised)
+    rep.extra["adjacent_unrelated_before_observed_possible"] = len(KINDS) * len(KINDS)
     rep.extra.update(stats)
     rep.extra["units"] = len(units)
     rep.extra["uncompared"] = sum(len(v) for v in pending.values())
